@@ -50,6 +50,7 @@ import warnings
 import numpy as np
 
 from ..gen import arrays as A
+from ..mon import siblings as S
 from ..mon.compare import compare_arrays
 
 PROP = "C33"
@@ -182,6 +183,121 @@ def cases(tier, seed):
             d["mk2"] = rng.choice(MASKKINDS[:-2])
             d["mkc"] = rng.choice(MASKKINDS[:-2])
         yield d
+    # ---- parameter-audit part (own stream; the stream above is unchanged) ---------------------
+    xr = random.Random(seed * 7919 + 3333)
+    for i in range(1500 if tier == "quick" else 25000):
+        yield _extra_case(xr)
+
+
+XKINDS = (["x_layout"] * 6 + ["x_construct"] * 3 + ["x_mfunc"] * 3 + ["x_like"] + ["x_reduce"] * 4 + ["x_state"] * 2 +
+          ["x_elem"] * 2 + ["x_sib"] * 4)
+SIBS = ["filled:fill_value", "masked_array:fill_value", "masked_inside:v2", "masked_greater:value", "masked_equal:value",
+        "masked_values:rtol", "masked_values:atol", "fix_invalid:fill_value", "set_fill_value:fill_value", "count:axis",
+        "var:ddof", "average:returned", "masked_where:condition"]
+
+
+def _rand_slices(rng, shape, chunks):
+    """per axis ["s", start, stop, step] or ["i", index]; bounds often ON block boundaries; at least one slice"""
+    out = []
+    for n, ch in zip(shape, chunks):
+        bounds = [0]
+        for c in ch:
+            bounds.append(bounds[-1] + c)
+        pool = [None, None] + bounds + [rng.randint(-n - 1, n + 1) for _ in range(2)] + [-b for b in bounds if b]
+        if n and rng.random() < 0.2:
+            out.append(["i", rng.randrange(-n, n)])
+        else:
+            out.append(["s", rng.choice(pool), rng.choice(pool), rng.choice((None, None, 1, 2, -1, -2, 3))])
+    if all(o[0] == "i" for o in out):
+        out[rng.randrange(len(out))] = ["s", None, None, None]
+    return out
+
+
+def _extra_case(rng):
+    kind = rng.choice(XKINDS)
+    shape = A.rand_shape(rng, maxnd=3, maxlen=6, minnd=1, allow_zero=kind in ("x_layout", "x_construct") and rng.random() < 0.12)
+    d = {"kind": kind, "shape": list(shape), "dtype": rng.choice(DT), "seed": rng.randrange(2 ** 31),
+         "mk": rng.choice(MASKKINDS), "via": rng.choice(("ctor", "ctor", "from_array", "ctor_npmask")),
+         "fv": rng.choice(FILLS), "threads": rng.random() < 0.1}
+    nd = len(shape)
+    if kind == "x_reduce":
+        d["op"] = rng.choice(REDS)
+        d["cls"] = cls = rng.choice(("dtype", "big", "4d", "deep"))
+        if cls == "big":          # a block of > 255 elements (also one that is not the last)
+            L = rng.choice((300, 520, 700))
+            shape = [L] if rng.random() < 0.5 else ([rng.randint(2, 3), L] if rng.random() < 0.5 else [L, rng.randint(2, 3)])
+        elif cls == "4d":
+            shape = rng.sample(range(1, 6), 4)
+        elif cls == "deep":       # > split_every blocks along the reduced axis: intermediate combine levels
+            shape = [rng.randint(9, 16)] + ([rng.randint(1, 3)] if rng.random() < 0.5 else [])
+        else:
+            d["op"] = rng.choice(("sum", "sum", "prod", "mean"))
+            d["rdtype"] = rng.choice(("float32", "float64", "int64", "int16"))
+            if d["op"] == "mean":      # Calibration: numpy.ma's mean(dtype=<int>) is sum/count = float64, NumPy proper (and dask) return the int
+                d["rdtype"] = rng.choice(("float32", "float64"))
+        d["shape"], nd = list(shape), len(shape)
+        r = rng.random()
+        d["axis"] = None if r < 0.3 else (rng.randrange(-nd, nd) if r < 0.8 or nd < 2 else sorted(rng.sample(range(nd), rng.randint(2, nd))))
+        if cls == "deep":
+            d["axis"] = rng.choice((0, None))
+        d["keepdims"] = rng.random() < 0.3
+        d["split_every"] = 2 if cls == "deep" else rng.choice((None, None, 2, 3))
+        d["ddof"] = rng.choice((0, 1, 2, 3)) if d["op"] in ("std", "var") else 0
+    shape = d["shape"]
+    if kind == "x_reduce" and d["cls"] == "big":
+        def big(n):
+            if n < 256:
+                return list(A.rand_comp(rng, n))
+            a = rng.randint(256, n - 1)
+            return rng.choice(([a, n - a], [n - a, a], [a, n - a - 1, 1]))
+        d["chunks"] = [big(n) for n in shape]
+        d["mchunks"] = [big(n) for n in shape]
+    elif kind == "x_reduce" and d["cls"] == "deep":
+        d["chunks"] = [[1] * shape[0]] + [list(A.rand_comp(rng, n)) for n in shape[1:]]
+        d["mchunks"] = [list(c) for c in A.rand_chunks(rng, shape)]
+    else:
+        d["chunks"] = [list(c) for c in A.rand_chunks(rng, shape)]
+        d["mchunks"] = [list(c) for c in A.rand_chunks(rng, shape)]
+    if kind == "x_layout":
+        d["op"] = op = rng.choice(("concatenate", "concatenate", "stack", "rechunk", "rechunk", "slice", "slice"))
+        d["axis"] = rng.randrange(-nd, nd) if op != "stack" else rng.randrange(-nd - 1, nd + 1)
+        d["others"] = [{"len": rng.randint(0, 4), "dtype": rng.choice((d["dtype"], d["dtype"], rng.choice(DT))),
+                        "mk": rng.choice(MASKKINDS[:-2]), "yk": rng.choice(("masked", "masked", "plain")),
+                        "fv": rng.choice((d["fv"], d["fv"], rng.choice(FILLS)))} for _ in range(rng.randint(1, 2))]
+        d["sl"] = _rand_slices(rng, shape, d["chunks"])
+        d["then_filled"] = rng.random() < 0.4
+    elif kind == "x_construct":
+        d["form"] = rng.choice(("masked-data+mask", "masked-data+mask", "keep_mask=False", "dtype=", "mask-list", "np-masked-data"))
+        d["to"] = rng.choice(DT)
+        d["mk2"] = rng.choice(("random", "chunk", "none", "all"))
+    elif kind == "x_mfunc":
+        d["op"] = rng.choice(("masked_values", "masked_values", "fix_invalid"))
+        d["dtype"] = rng.choice(("float64", "float32", "float64", "int64"))
+        d["in_masked"] = rng.random() < 0.5
+        d["v"] = rng.choice((-1, 0, 1, 2, 0.5))
+        d["rtol"] = rng.choice((None, 1e-2, 0.5, 0))
+        d["atol"] = rng.choice((None, 1e-3, 0.4, 1.0))
+        d["shrink"] = rng.choice((None, None, False))
+        d["call_fv"] = rng.choice((None, 0, -1, 2.5, 300))
+    elif kind == "x_like":
+        d["op"] = rng.choice(("zeros_like", "ones_like"))
+        d["to"] = rng.choice((None, None, "float32", "int16", "bool", "float64"))
+    elif kind == "x_state":
+        d["new_fv"] = rng.choice(FILLS[2:])
+        d["follow"] = rng.choice(("filled", "rechunk", "slice", "abs"))
+    elif kind == "x_elem":
+        d["sub"] = rng.choice(("pow", "rpow", "npufunc1", "npufunc2"))
+        d["op"] = rng.choice(UNUF) if d["sub"] == "npufunc1" else rng.choice(BINUF) if d["sub"] == "npufunc2" else "pow"
+        d["yk"] = rng.choice(("masked", "plain", "scalar"))
+        d["d2"] = rng.choice(("int64", "uint8", "float64"))
+        d["mk2"] = rng.choice(MASKKINDS[:-2])
+        d["scalar"] = rng.choice((2, 3, 0, 0.5))
+    elif kind == "x_sib":
+        d["sib"] = rng.choice(SIBS)
+        if d["sib"].split(":")[0] in ("masked_values", "fix_invalid", "average", "var"):
+            d["dtype"] = rng.choice(("float64", "float32"))
+        d["p"] = [rng.choice(FILLS[2:]), rng.choice(FILLS[2:])]
+    return d
 
 
 # ---------------------------------------------------------------------------------------------
@@ -395,6 +511,10 @@ def _run(case, ctx):
 
     dtype, seed, mk, via = case["dtype"], case["seed"], case["mk"], case["via"]
     fv = _fv(case.get("fv"))
+    if kind.startswith("x_"):
+        ctx.sig = {k: v for k, v in case.items() if k not in ("seed", "threads")}
+        _run_extra(case, ctx, kind, shape, chunks, dtype, seed, mk, via, fv, zero)
+        return
     special = kind in ("mfunc", "filled") and dtype.startswith("float")
     ctx.sig = {k: v for k, v in case.items() if k not in ("seed", "threads")}
 
@@ -601,7 +721,7 @@ def _run(case, ctx):
         ctx.op("set_fill_value")
 
         def ref():
-            c = mx.copy()
+            c = _detached(mx)
             np.ma.set_fill_value(c, nfv)
             return c
 
@@ -668,5 +788,358 @@ def _run(case, ctx):
                                  cm if cm is np.ma.nomask else da.from_array(cm, chunks=chunks))
         _check(ctx, case, "where", "where", _flags(zero, zd), lambda: np.ma.where(mc, mx, y),
                lambda: da.ma.where(dmc, dmx, dy))
+        return
+    raise AssertionError(kind)
+
+
+# ---------------------------------------------------------------------------------------------
+# parameter-audit families (kinds x_*)
+
+def _same_ma(x, y):
+    """sibling equality that also sees the fill value and what lies under the mask"""
+    if not S.same_value(x, y):
+        return False
+    if isinstance(x, np.ma.MaskedArray) and isinstance(y, np.ma.MaskedArray):
+        fx, fy = np.asarray(x.fill_value), np.asarray(y.fill_value)
+        if not np.array_equal(fx, fy, equal_nan=fx.dtype.kind in "fc"):
+            return False
+        dx, dy = np.ma.getdata(x), np.ma.getdata(y)
+        return bool(np.array_equal(dx, dy, equal_nan=dx.dtype.kind in "fc"))
+    return True
+
+
+def _detached(mx):
+    """A copy of a numpy masked array that shares nothing with it.  ``mx.copy()`` shares the 0-d array holding the fill value
+    and ``np.ma.set_fill_value`` writes into it in place, so the reference would change the very array the dask graph reads
+    (route from_array) - Calibration: the reference must not touch the input of the code under test."""
+    return np.ma.masked_array(np.array(np.ma.getdata(mx), copy=True), mask=np.array(np.ma.getmaskarray(mx), copy=True),
+                              fill_value=mx.fill_value)
+
+
+def _index_of(sl):
+    return tuple(slice(o[1], o[2], o[3]) if o[0] == "s" else o[1] for o in sl)
+
+
+def _run_extra(case, ctx, kind, shape, chunks, dtype, seed, mk, via, fv, zero):
+    import dask.array as da
+
+    nd = len(shape)
+    mchunks = A.chunks_of_desc(case["mchunks"])
+
+    if kind == "x_construct":
+        form = case["form"]
+        ctx.op("construct:" + form)
+        ctx.count("construct_forms")
+        ctx.distinct("construct_form_kinds", form)
+        x = A.rand_data(seed, shape, dtype, special=False)
+        kw = {} if fv is None else {"fill_value": fv}
+        flags = _flags(form, "fill_value" if fv is not None else "", zero)
+        if form in ("masked-data+mask", "keep_mask=False"):
+            mx, dmx, allm = _masked_input(seed, shape, dtype, case["chunks"], case["mchunks"], mk, via, fv=_fv(case["p_fv"]) if "p_fv" in case else None)
+            m2, _ = _mask_for(seed + 2, shape, mchunks, case["mk2"])
+            k2 = {"keep_mask": False} if form == "keep_mask=False" else {}
+            _check(ctx, case, "construct", "masked_array", flags, lambda: np.ma.masked_array(mx, mask=m2, **kw, **k2),
+                   lambda: da.ma.masked_array(dmx, mask=da.from_array(m2, chunks=mchunks), **kw, **k2), fill=True)
+        elif form == "dtype=":
+            m, allm = _mask_for(seed, shape, chunks, mk)
+            dm = m if (m is np.ma.nomask or isinstance(m, bool)) else da.from_array(m, chunks=mchunks)
+            to = case["to"]
+            _check(ctx, case, "construct", "masked_array", flags, lambda: np.ma.masked_array(x, mask=m, dtype=to, **kw),
+                   lambda: da.ma.masked_array(da.from_array(x, chunks=chunks), mask=dm, dtype=to, **kw), fill=True)
+        elif form == "mask-list":
+            m, allm = _mask_for(seed, shape, chunks, "random" if mk in ("nomask", "scalarT", "scalarF") else mk)
+            _check(ctx, case, "construct", "masked_array", flags, lambda: np.ma.masked_array(x, mask=m.tolist(), **kw),
+                   lambda: da.ma.masked_array(da.from_array(x, chunks=chunks), mask=m.tolist(), **kw), fill=True)
+        else:   # a numpy masked array handed to the dask constructor
+            m, allm = _mask_for(seed, shape, chunks, mk)
+            try:
+                mx = np.ma.masked_array(x, mask=m)
+            except Exception as ex:  # noqa: BLE001
+                raise _Reject("numpy.ma: %s" % ex)
+            _check(ctx, case, "construct", "masked_array", flags, lambda: np.ma.masked_array(mx, **kw),
+                   lambda: da.ma.masked_array(mx, chunks=chunks, **kw) if False else da.ma.masked_array(da.from_array(mx, chunks=chunks), **kw),
+                   fill=True)
+        return
+
+    if kind == "x_mfunc":
+        op = case["op"]
+        ctx.op("mfunc:" + op)
+        r = np.random.default_rng(seed + 21)
+        x = A.rand_data(seed, shape, dtype, special=(op == "fix_invalid" and dtype.startswith("float")))
+        if dtype.startswith("float") and op == "masked_values":
+            x = (x + r.choice([0, 0, 1e-6, 1e-3, 0.05, 0.3, -0.3], size=x.shape)).astype(dtype)
+        m, allm = _mask_for(seed, shape, chunks, mk) if case["in_masked"] else (np.ma.nomask, False)
+        mx = np.ma.masked_array(x, mask=m) if case["in_masked"] else x
+        dx = da.from_array(x, chunks=chunks)
+        if case["in_masked"]:
+            dm = m if (m is np.ma.nomask or isinstance(m, bool)) else da.from_array(m, chunks=mchunks)
+            dmx = da.ma.masked_array(dx, mask=dm)
+        else:
+            dmx = dx
+        inp = "masked-input" if case["in_masked"] else "plain-input"
+        if op == "masked_values":
+            kw = {k: case[k] for k in ("rtol", "atol", "shrink") if case[k] is not None}
+            if kw:
+                ctx.count("masked_values_keywords")
+                # how many cells does the keyword change?  (floor: the keyword must be visible in the data)
+                try:
+                    if not np.array_equal(np.ma.getmaskarray(np.ma.masked_values(mx, case["v"], **kw)),
+                                          np.ma.getmaskarray(np.ma.masked_values(mx, case["v"]))):
+                        ctx.count("masked_values_keyword_changes_mask")
+                except Exception:  # noqa: BLE001
+                    pass
+            _check(ctx, case, "mfunc", op, _flags(inp, "+".join(sorted(kw)) or "defaults", zero),
+                   lambda: np.ma.masked_values(mx, case["v"], **kw), lambda: da.ma.masked_values(dmx, case["v"], **kw))
+        else:
+            cfv = case["call_fv"]
+            ctx.count("fix_invalid_cases")
+            invalid = ~np.isfinite(x) if x.dtype.kind == "f" else np.zeros(x.shape, bool)
+            if invalid.any():
+                ctx.count("fix_invalid_with_invalid_cells")
+            fl = _flags(inp, "fill_value" if cfv is not None else "", zero)
+            _check(ctx, case, "mfunc", op, fl, lambda: np.ma.fix_invalid(mx, fill_value=cfv),
+                   lambda: da.ma.fix_invalid(dmx, fill_value=cfv))
+            # the DATA at the invalid cells is the fill value (this is what fix_invalid is for): compared there only
+            _check(ctx, case, "mfunc", op, fl + "&data-at-invalid", lambda: np.ma.getdata(np.ma.fix_invalid(mx, fill_value=cfv)),
+                   lambda: da.ma.getdata(da.ma.fix_invalid(dmx, fill_value=cfv)), only=invalid)
+        return
+
+    if kind == "x_like":
+        op, to = case["op"], case["to"]
+        ctx.op("like:" + op)
+        ctx.count("like_cases")
+        if to is not None:
+            ctx.count("like_dtype_keyword")
+        mx, dmx, allm = _masked_input(seed, shape, dtype, case["chunks"], case["mchunks"], mk, via, fv=fv)
+        kw = {} if to is None else {"dtype": to}
+        _check(ctx, case, "like", "ones|zeros_like", _flags("dtype=" if to else "", zero), lambda: getattr(np.ma, op)(mx, **kw),
+               lambda: getattr(da.ma, op)(dmx, **kw))
+        return
+
+    if kind == "x_layout":
+        op = case["op"]
+        ctx.op("layout:" + op)
+        mx, dmx, allm = _masked_input(seed, shape, dtype, case["chunks"], case["mchunks"], mk, via, fv=fv)
+        if allm:
+            ctx.count("with_allmasked_chunk")
+        ctx.count("layout_cases")
+        ctx.distinct("layout_kinds", (op, fv is not None and fv != fv, len(chunks[0]) > 1 if chunks else False))
+        then = (lambda X, mod: mod.ma.filled(X)) if case["then_filled"] else (lambda X, mod: X)
+        tf = "then-filled" if case["then_filled"] else ""
+        if tf:
+            ctx.count("layout_then_filled_with_own_fill_value")
+        if op in ("rechunk", "slice"):
+            # numpy keeps the fill value through views; after filled() the own fill value shows in the data
+            if fv is not None and fv != fv:
+                ctx.count("layout_nan_fill_value")
+            if op == "rechunk":
+                if A.has_split(mchunks):
+                    ctx.nontrivial = True
+                _check(ctx, case, "layout", op, _flags(tf, zero), lambda: then(mx, np),
+                       lambda: then(dmx.rechunk(mchunks), da), fill=not tf and not zero)
+            else:
+                idx = _index_of(case["sl"])
+                ez = 0 in np.ma.getmaskarray(mx)[idx].shape    # Calibration: an empty result has no cell a fill value could show in
+                _check(ctx, case, "layout", op, _flags(tf, zero), lambda: then(mx[idx], np), lambda: then(dmx[idx], da),
+                       fill=not tf and not zero and not ez)
+            return
+        axis = case["axis"]
+        parts_np, parts_da = [mx], [dmx]
+        for k, o in enumerate(case["others"]):
+            s2 = list(shape)
+            if op == "concatenate":
+                s2[axis % nd] = o["len"]
+            c2 = [list(c) for c in A.rand_chunks(random.Random(seed + k), s2)]
+            if o["yk"] == "plain":
+                y = A.rand_data(seed + 31 + k, s2, o["dtype"], special=False)
+                dy = da.from_array(y, chunks=A.chunks_of_desc(c2))
+            else:
+                y, dy, _ = _masked_input(seed + 31 + k, s2, o["dtype"], c2, c2, o["mk"], "ctor", fv=_fv(o["fv"]))
+            parts_np.append(y)
+            parts_da.append(dy)
+        if any(A.has_split(p.chunks) for p in parts_da):
+            ctx.nontrivial = True
+        ctx.count("layout_concat_stack_inputs", len(parts_da))
+        # the fill value of a concatenation is not defined by numpy.ma (it resets it, dask keeps a common one): data and mask only
+        f_np = (lambda: np.ma.concatenate(parts_np, axis=axis)) if op == "concatenate" else (lambda: np.ma.stack(parts_np, axis=axis))
+        f_da = (lambda: da.concatenate(parts_da, axis=axis)) if op == "concatenate" else (lambda: da.stack(parts_da, axis=axis))
+        _check(ctx, case, "layout", op, _flags("mixed-plain" if any(o["yk"] == "plain" for o in case["others"]) else "", zero),
+               f_np, f_da)
+        return
+
+    if kind == "x_reduce":
+        op, axis, keepdims, se, ddof, cls = case["op"], case["axis"], case["keepdims"], case["split_every"], case["ddof"], case["cls"]
+        ctx.op("reduce:" + op)
+        mx, dmx, allm = _masked_input(seed, shape, dtype, case["chunks"], case["mchunks"], mk, via, fv=fv)
+        if allm:
+            ctx.count("with_allmasked_chunk")
+        ctx.count("reduce_class_" + cls)
+        ax = tuple(axis) if isinstance(axis, list) else axis
+        kw = {"axis": ax, "keepdims": keepdims}
+        if ddof:
+            kw["ddof"] = ddof
+        if cls == "dtype":
+            kw["dtype"] = case["rdtype"]
+        if cls == "big" and max(max(c) for c in chunks) > 255:
+            ctx.count("reduce_block_gt_255")
+        n = int(np.prod(shape)) if shape else 1
+        exact = op in ("min", "max", "any", "all", "count") or (np.dtype(dtype).kind in "iub" and op in ("sum", "prod")
+                                                                 and kw.get("dtype", "int64").startswith("int"))
+        scale = 8.0 * max(n // 8, 1) if op in ("sum", "mean") else 64.0 * max(n // 8, 1)
+        if op == "prod":
+            if n > 40:
+                raise _Reject("prod of a long axis overflows: outside the comparable domain")
+            scale = float(np.max(np.abs(np.ma.getdata(mx).astype("float64")), initial=1.0)) ** n
+        cnt = np.asarray(np.ma.count(mx, axis=ax))
+        empty = "empty-cell" if (cnt == 0).any() else ""
+        dd = "ddof>=count" if (ddof and (cnt - ddof <= 0).any()) else ""
+        if dd and not np.ma.getmaskarray(mx).any():
+            raise _Reject("ddof >= count with nothing masked (see Calibration)")
+        if dd and cnt.ndim == 0 and int(cnt) - ddof < 0:
+            raise _Reject("ddof > count with scalar output (see Calibration)")
+        if empty:
+            ctx.count("reduce_with_fully_masked_cell")
+        flags = _flags(empty, dd, "scalar-output" if (dd and cnt.ndim == 0) else "") if (empty or dd) else _flags("dtype=" if cls == "dtype" else "")
+        if op == "count":
+            _check(ctx, case, "reduce", "count", flags, lambda: np.ma.count(mx, axis=ax, keepdims=keepdims),
+                   lambda: da.ma.count(dmx, split_every=se, axis=ax, keepdims=keepdims))
+        else:
+            _check(ctx, case, "reduce", "std-var" if op in ("std", "var") else op, flags, lambda: getattr(np, op)(mx, **kw),
+                   lambda: getattr(da, op)(dmx, split_every=se, **kw), exact=exact, n=max(n, 1) * 4, scale=scale,
+                   dtype_mode="kind" if op in ("mean", "std", "var") else "exact")
+        return
+
+    if kind == "x_state":
+        nfv = _fv(case["new_fv"])
+        follow = case["follow"]
+        ctx.op("state:set_fill_value+" + follow)
+        ctx.count("state_followups")
+        mx, dmx, allm = _masked_input(seed, shape, dtype, case["chunks"], case["mchunks"], mk, via, fv=fv)
+        idx = tuple(slice(None, None, -1) for _ in shape)
+
+        def after(X, mod):
+            if follow == "filled":
+                return mod.ma.filled(X)
+            if follow == "rechunk":
+                return mod.ma.filled(X.rechunk(mchunks)) if mod is da else np.ma.filled(X)
+            if follow == "slice":
+                return mod.ma.filled(X[idx])
+            return mod.ma.filled(abs(X))       # (not `X + 0`: Python-scalar operands are a numpy.ma dtype quirk, see Calibration)
+
+        def ref():
+            c = _detached(mx)
+            before = after(c, np)            # numpy.ma evaluates eagerly: an expression built before keeps the old fill value
+            np.ma.set_fill_value(c, nfv)
+            return before, after(c, np)
+
+        def dsk():
+            before = after(dmx, da)          # lazily built BEFORE the fill value of dmx is changed in place
+            da.ma.set_fill_value(dmx, nfv)
+            return before, after(dmx, da)
+
+        _check(ctx, case, "set_fill_value", "set_fill_value", "followed-by-op", ref, dsk, outnames=("built-before", "built-after"))
+        return
+
+    if kind == "x_elem":
+        sub, op, yk = case["sub"], case["op"], case["yk"]
+        ctx.op("elem:" + sub + ":" + op)
+        ctx.count("elem_extra")
+        mx, dmx, allm = _masked_input(seed, shape, dtype, case["chunks"], case["mchunks"], mk, via, fv=fv)
+        if sub == "npufunc1":
+            ctx.count("elem_numpy_ufunc_on_dask")
+            _check(ctx, case, "elem", op, "numpy-ufunc-call", lambda: getattr(np, op)(mx), lambda: getattr(np, op)(dmx))
+            return
+        if yk == "scalar":
+            if dtype == "bool" or (sub in ("pow", "rpow") and np.dtype(dtype).kind in "iu" and case["scalar"] == 0.5 and False):
+                raise _Reject("bool ** scalar")
+            y = dy = case["scalar"]
+        elif yk == "masked":
+            y, dy, _ = _masked_input(seed + 1, shape, case["d2"], case["mchunks"], case["mchunks"], case["mk2"], "ctor")
+        else:
+            y = A.rand_data(seed + 1, shape, case["d2"], special=False)
+            dy = da.from_array(y, chunks=mchunks)
+        if sub == "npufunc2":
+            ctx.count("elem_numpy_ufunc_on_dask")
+            _check(ctx, case, "elem", op, _flags("numpy-ufunc-call", "y=" + yk), lambda: getattr(np, op)(mx, y),
+                   lambda: getattr(np, op)(dmx, dy), dtype_mode="none" if yk == "scalar" else "exact")
+            return
+        ctx.count("elem_pow")
+        if sub == "pow":
+            _check(ctx, case, "elem", "pow", _flags("y=" + yk), lambda: mx ** y, lambda: dmx ** dy,
+                   dtype_mode="none" if yk == "scalar" else "exact")
+        else:
+            if yk != "scalar":
+                raise _Reject("reversed pow only with a Python scalar base (numpy operand answers itself)")
+            _check(ctx, case, "elem", "rpow", "y=scalar", lambda: y ** mx, lambda: dy ** dmx, dtype_mode="none")
+        return
+
+    if kind == "x_sib":
+        fam, param = case["sib"].split(":")
+        ctx.op("sib:" + case["sib"])
+        p1, p2 = [_fv(v) for v in case["p"]]
+        special = fam in ("fix_invalid",)
+        x = A.rand_data(seed, shape, dtype, special=special)
+        m, allm = _mask_for(seed, shape, chunks, mk)
+        if isinstance(m, bool):
+            m = np.full(shape, m)
+
+        def base():
+            dx = da.from_array(x, chunks=chunks)
+            if m is np.ma.nomask:
+                return da.ma.masked_array(dx)
+            return da.ma.masked_array(dx, mask=da.from_array(m, chunks=mchunks))
+
+        c = np.random.default_rng(seed + 5).random(shape) < 0.5
+
+        def build(p, second):
+            b = base()
+            if fam == "filled":
+                return da.ma.filled(b, p)
+            if fam == "masked_array":
+                return da.ma.masked_array(da.from_array(x, chunks=chunks), mask=None if m is np.ma.nomask else m, fill_value=p) \
+                    if m is not np.ma.nomask else da.ma.masked_array(da.from_array(x, chunks=chunks), fill_value=p)
+            if fam == "masked_inside":
+                return da.ma.masked_inside(b, -1, 3 if second else 1)
+            if fam == "masked_greater":
+                return da.ma.masked_greater(b, 2 if second else 0)
+            if fam == "masked_equal":
+                return da.ma.masked_equal(b, 2 if second else 1)
+            if fam == "masked_values":
+                kw = {param: (0.5 if second else 1e-3)}
+                return da.ma.masked_values(b, 1.2, **kw)
+            if fam == "fix_invalid":
+                return da.ma.fix_invalid(b, fill_value=p)
+            if fam == "set_fill_value":
+                da.ma.set_fill_value(b, p)
+                return b
+            if fam == "count":
+                return da.ma.count(b, axis=(len(shape) - 1 if second else 0), keepdims=True)
+            if fam == "var":
+                return da.var(b, axis=0, ddof=1 if second else 0)
+            if fam == "average":
+                return da.ma.average(b, axis=0, returned=second)
+            if fam == "masked_where":
+                return da.ma.masked_where(da.from_array(~c if second else c, chunks=chunks), b)
+            raise AssertionError(fam)
+
+        try:
+            a = build(p1, False)
+        except NotImplementedError as ex:
+            ctx.unsupported(str(ex))
+            return
+        except Exception as ex:  # noqa: BLE001
+            # numpy.ma refuses the same fill value for this dtype -> reference-side refusal
+            try:
+                np.ma.masked_array(x, fill_value=p1)
+            except Exception as ex2:  # noqa: BLE001
+                ctx.reject("numpy.ma: %s" % ex2)
+                return
+            ctx.exception(ex, prefix="sib:%s" % fam)
+            return
+        sch = "threads" if case.get("threads") else "sync"
+        S.check(ctx, fam, param, a, (lambda: build(p2, True)), same=_same_ma,
+                compute=lambda coll: coll.compute(scheduler=sch),
+                compute_many=lambda colls: __import__("dask").compute(*colls, scheduler=sch),
+                describe={"first": repr(p1), "second": repr(p2)})
         return
     raise AssertionError(kind)
